@@ -19,17 +19,17 @@ theorem speed_sq {m E : ℝ} (hm : 0 < m) (hE : 0 < E) : speed m E * speed m E =
   Real.mul_self_sqrt (by positivity)
 
 theorem direct_unfold (c1 c2 tof L1 L2 Ei : ℝ) :
-    energyTransferDirect (Casts.id ℝ) c1 c2 tof L1 L2 Ei
-      = if tof - energyTransferT0 (Casts.id ℝ) c1 Ei L1 ≤ 0 then none
+    energyTransferDirect (Casts.id ℝ) (LenCast.id ℝ) (LenCast.id ℝ) c1 c2 tof L1 L2 Ei
+      = if tof - energyTransferT0 (Casts.id ℝ) (LenCast.id ℝ) c1 Ei L1 ≤ 0 then none
         else some (Ei - c2 * (L2 * L2) /
-          ((tof - energyTransferT0 (Casts.id ℝ) c1 Ei L1) * (tof - energyTransferT0 (Casts.id ℝ) c1 Ei L1))) :=
+          ((tof - energyTransferT0 (Casts.id ℝ) (LenCast.id ℝ) c1 Ei L1) * (tof - energyTransferT0 (Casts.id ℝ) (LenCast.id ℝ) c1 Ei L1))) :=
   rfl
 
 theorem indirect_unfold (c1 c2 tof L1 L2 Ef : ℝ) :
-    energyTransferIndirect (Casts.id ℝ) c1 c2 tof L1 L2 Ef
-      = if -energyTransferT0 (Casts.id ℝ) c2 Ef L2 + tof ≤ 0 then none
+    energyTransferIndirect (Casts.id ℝ) (LenCast.id ℝ) (LenCast.id ℝ) c1 c2 tof L1 L2 Ef
+      = if -energyTransferT0 (Casts.id ℝ) (LenCast.id ℝ) c2 Ef L2 + tof ≤ 0 then none
         else some (c1 * (L1 * L1) /
-          ((-energyTransferT0 (Casts.id ℝ) c2 Ef L2 + tof) * (-energyTransferT0 (Casts.id ℝ) c2 Ef L2 + tof)) - Ef) :=
+          ((-energyTransferT0 (Casts.id ℝ) (LenCast.id ℝ) c2 Ef L2 + tof) * (-energyTransferT0 (Casts.id ℝ) (LenCast.id ℝ) c2 Ef L2 + tof)) - Ef) :=
   rfl
 
 /-- the variable leg: `scale/δ² = E` when `δ·s_t = L·s_L / v(E·s_E)` -/
